@@ -481,8 +481,14 @@ def _tree(v, out):
 def case_text(case):
     lines = []
     for op in case["ops"]:
-        out = [op["op"] if op["op"] in ("enc", "dec", "deckey") else "deckey", _hex(str(op["id"])), _hex(op["pkt"])]
+        out = [op["op"] if op["op"] in ("enc", "encinto", "dec", "deckey") else "deckey", _hex(str(op["id"])), _hex(op["pkt"])]
         if op["op"] == "enc":
+            _tree(op["val"], out)
+        elif op["op"] == "encinto":     # <p> <byte>*p <rd> <tree>
+            pre = op.get("pre") or []
+            out.append(str(len(pre)))
+            out.extend(str(int(x) & 255) for x in pre)
+            out.append(str(int(op.get("rd") or 0)))
             _tree(op["val"], out)
         else:
             for key in ("bytes", "tail"):
@@ -637,7 +643,9 @@ class Rust(Lang):
             why = "driver died executing op %d (%s %s): %s %s" % (done, op["op"], op["id"], "timeout" if r.timed_out else "rc=%s" % r.returncode,
                                                              r.stderr.strip()[-300:])
             e = {"ev": op["op"], "id": op["id"], "ok": False, "cls": "crash", "err": why}
-            if op["op"] != "enc":
+            if op["op"] == "encinto":
+                e.update(pre=len(op.get("pre") or []), rd=int(op.get("rd") or 0))
+            elif op["op"] != "enc":
                 e["tail"] = len(op.get("tail") or [])
             events.append(e)
             crash = crash or why
